@@ -5,6 +5,10 @@ private helpers, ``Cylinder.quadrature`` / ``_select_quadrature_points``,
 ``compute_transmission_map``, ``_single_scatter_distance_through_sample``,
 ``_integrate_transmission_fraction`` and ``Material.attenuation_coefficient``.
 
+The workload also varies the LAYOUT of the array operands (every dims relation of start points
+and directions, every shape of the detector array) and the length units of the fields; the
+monitors judge tables entry by entry after broadcasting the operands by dimension label.
+
 Oracles (rv/oracle/cyl.py, long double, no scippneutron): the solid in an orthonormal
 frame of its own built by Gram-Schmidt; a path length is acceptable when it lies
 between the lengths through the solid shrunk and grown by delta = 64 eps (|p - base| +
@@ -45,7 +49,18 @@ RULE = (
     'limit), and per run one heavy case where nodes x detectors crosses 2e7 (flat pixel list just '
     'above and just below, the same pixels as a 2-d array; 3 wavelengths; compared elementwise with '
     'each other and with a small call on a subset of the pixels; the branch taken is observed as '
-    'nested frames of _integrate_transmission_fraction); a case is never trivial; distinct = distinct (kind of case, unit, axis class, r/h decade, call '
+    'nested frames of _integrate_transmission_fraction); (f) operand layouts: per solid one '
+    'beam_intersection call for every relation the dims of (start_point, direction) can have - both '
+    'scalar, one array, paired over one dim, outer product over two dims (equal / unequal lengths, '
+    'length 1), 2-d with 1-d over its first / second / a third dim and vice versa, 2-d pairs in the same '
+    'and the opposite dim order (square and not), transposed views, strided slices, 2-d x 2-d sharing '
+    'one / no dim, empty operands, conflicting extents (refusal expected) - with half of the start points '
+    'inside the solid; every entry of the table is judged for its (start, direction) pair and the dims of '
+    'the table against the broadcast by label; the detector operand of compute_transmission_map as flat '
+    'list, 2-d array, transposed view, strided slice, length-1 array and 0-d vector (same pixels '
+    'compared); (g) length units: the same solid with radius, height and start points / detectors in '
+    'all 27 combinations of mm/cm/m relative to the base point, every method on every combination '
+    '(a UnitError for a mixture is a counted refusal); a case is never trivial; distinct = distinct (kind of case, unit, axis class, r/h decade, call '
     'shape / quadrature kind / optical-depth decade) signatures'
 )
 ASSUMPTIONS = [
@@ -66,8 +81,18 @@ ASSUMPTIONS = [
     'the canonical multiset of a kind is what the code itself returns for axis +z, base 0 and the '
     'same radius/height objects (an observation compared with an observation)',
     'mu = n (sigma_s + sigma_a lambda / 1.7982 angstrom) (C20 owns the tables)',
-    'start point, base and height share one length unit (scipp refuses anything else); radius may '
-    'use another length unit for quadrature()',
+    'radius, height, base point and start points in different length units: whatever a method answers '
+    'is judged against the fields as given (converted with the independent SI table to the unit of the '
+    'base point; a path length may come in any length unit); a scipp UnitError for such a mixture is a '
+    'refusal, counted per method and not judged (today: beam_intersection needs one unit throughout, '
+    'quadrature / center need height in the unit of the base point); with one unit throughout the path '
+    'length must come in that unit',
+    'the result of beam_intersection has exactly the dims (label -> extent) of the broadcast by label of '
+    'start_point and direction (and the fields of the solid); the ORDER of the dims is not part of the '
+    'property; operands that give one label two extents have no broadcast: a DimensionError is the '
+    'expected refusal there (counted), a value returned instead is not judged',
+    'the layout of the detector operand is not part of the property: the same pixel gives the same '
+    'transmission to 1e-12 absolute whatever array it is handed over in',
     'Cylinder and Material are mutable dataclasses: after a public field has been reassigned (or the '
     'Variable it holds modified in place) every method answers for the solid / material the fields '
     'describe at the time of the call; a refused assignment (frozen class) is counted, not judged',
@@ -186,12 +211,55 @@ def _big_skip(st, size):
     return bool(st.big and size <= BIG_ELEMS and st.big_counter % BIG_JUDGE_EVERY)
 
 
+def _broadcast_sizes(*operands):
+    """{dim: extent} of the broadcast by dimension label of the operands, and whether two
+    operands give one label different extents (then no broadcast exists)."""
+    sizes, conflict = {}, False
+    for v in operands:
+        for d, n in v.sizes.items():
+            if d in sizes and sizes[d] != n:
+                conflict = True
+            sizes.setdefault(d, n)
+    return sizes, conflict
+
+
+def _layout_key(sp, dr):
+    """Relation of the dims of the two operands (a mechanism fact with few values)."""
+    a, b = set(sp.dims), set(dr.dims)
+    if not a and not b:
+        return 'both scalar'
+    if not a or not b:
+        return 'one scalar'
+    if a == b:
+        return 'same dims' if tuple(sp.dims) == tuple(dr.dims) else 'same dims, other order'
+    if not a & b:
+        return 'disjoint dims'
+    return 'nested dims' if a <= b or b <= a else 'overlapping dims'
+
+
+def _mixed_units(c, *extra):
+    """More than one length unit among the fields of the solid (and the operands given)."""
+    us = {repr(c.center_of_base.unit), repr(c.radius.unit), repr(c.height.unit)}
+    return len(us | {repr(u) for u in extra}) > 1
+
+
+def _refused_units(ctx, exc, c, where, *extra):
+    """A ``UnitError`` when the solid / the operands use more than one length unit is a refusal
+    of that mixture (counted, not judged); whatever is answered instead is judged in the unit
+    of the base point."""
+    if isinstance(exc, sc.UnitError) and _mixed_units(c, *extra):
+        ctx.count(f'refused:mixed_length_units:{where}')
+        return True
+    return False
+
+
 # ------------------------------------------------------------ monitor state ---
 class State:
     def __init__(self, ctx, shard):
         self.ctx = ctx
         self.origin = 'direct'
         self.ray_classes = None      # per-ray class labels of the current direct call
+        self.layout = None           # name of the operand layout of the current direct call
         self.case_descr = None
         self.last_quad = None        # (points, weights, kind) seen inside compute_transmission_map
         self.last_mu = []            # attenuation coefficients seen inside the current map
@@ -221,16 +289,48 @@ def judge_beam(st: State, ev):
     case = {'monitor': 'beam_intersection', 'origin': st.origin, 'cylinder': g.descr()}
     if st.case_descr:
         case['case'] = st.case_descr
+    layout = st.layout if not in_situ else None
+    if layout:
+        case['operand_layout'] = layout
+    try:
+        want_sizes, conflict = _broadcast_sizes(sp, dr, c.symmetry_line, c.center_of_base,
+                                                c.radius, c.height)
+        case['operand_dims'] = {'start_point': dict(sp.sizes), 'direction': dict(dr.sizes)}
+    except Exception:  # noqa: BLE001
+        ctx.oracle_error('C18 operand dims')
+        return
     if ev.exc is not None:
+        if _refused_units(ctx, ev.exc, c, f'beam_intersection.{tag}', sp.unit):
+            return
+        if conflict and isinstance(ev.exc, sc.DimensionError):
+            # no broadcast of the operands exists: the only allowed answer is this refusal
+            ctx.count('refused:operand_extents_conflict')
+            return
         ctx.violation('beam_intersection_raised',
                       f'beam_intersection raised {type(ev.exc).__name__}: {ev.exc}', case,
-                      origin=tag)
+                      origin=tag, operands=_layout_key(sp, dr))
+        return
+    if conflict:
+        ctx.count('not_judged:result_for_conflicting_operand_extents')
         return
     if st.big:
         st.big_counter += 1
         if _big_skip(st, res.size):
             ctx.count('in_situ_calls_not_judged_in_big_case')
             return
+    # the result is the table over the broadcast (by dimension label) of the operands: one entry
+    # per (start, direction) pair; the order of the dims is not part of the property
+    ctx.event(f'beam_intersection.dims.{tag}')
+    if dict(res.sizes) != want_sizes:
+        case['result_dims'] = dict(res.sizes)
+        case['broadcast_dims'] = want_sizes
+        ctx.violation('path_dims',
+                      f'beam_intersection [{tag}]: result dims {dict(res.sizes)}, broadcast of the '
+                      f'operands {want_sizes}', case, origin=tag, operands=_layout_key(sp, dr))
+        return
+    if res.size == 0:
+        ctx.count('empty_calls_dims_only')
+        return
     try:
         if res.size > BIG_ELEMS:
             res, (sp, dr) = _thin(st, res, (sp, dr))
@@ -264,9 +364,19 @@ def judge_beam(st: State, ev):
             f'path oracle contradicts its own sampled inside test ({bad_self} samples)')
         return
     if res.unit != g.unit:
-        ctx.violation('path_unit', f'path length unit {res.unit}, geometry in {g.unit}', case,
-                      origin=tag)
-        return
+        # one length unit throughout: the path length comes in it; mixed (compatible) length
+        # units that the code accepts: any length unit, converted here
+        try:
+            to_g = float(_ratio(res.unit, g.unit)) if (
+                _mixed_units(c, sp.unit) and si.dim(res.unit) == si.dim(g.unit)) else None
+        except Exception:  # noqa: BLE001   not a unit the table knows: not a length
+            to_g = None
+        if to_g is None:
+            ctx.violation('path_unit', f'path length unit {res.unit}, geometry in {g.unit}', case,
+                          origin=tag)
+            return
+        got = got * to_g
+        ctx.count('mixed_length_units:path_converted')
     L, lo_b, hi_b, delta = o['L'], o['L_in'], o['L_out'], o['delta']
     scale = o['dist'] + g.r + g.h
     finite = np.isfinite(got)
@@ -279,6 +389,10 @@ def judge_beam(st: State, ev):
     ctx.count('rays_decided', int(got.size - n_wide))
     ctx.count('rays_sqrt_conditioned', int(np.count_nonzero(tangentish)))
     ctx.event(f'beam_intersection.{tag}')
+    if layout:
+        ctx.event('beam_intersection.layout')
+        ctx.count('layout:entries_decided', int(got.size - n_wide))
+        ctx.count('layout:entries_decided_with_nonzero_path', int(np.count_nonzero((lo_b > 0) & ~wide)))
     ok = finite & (got >= lo_b - delta) & (got <= hi_b + delta)
     with np.errstate(all='ignore'):
         err = np.abs(got.astype(LD) - L) / scale
@@ -332,7 +446,7 @@ def judge_beam(st: State, ev):
 def judge_positive_interval(st: State, ev):
     """max(0, max(0, min(a1, b1)) - max(0, max(a0, b0))): exact model on the observed floats."""
     ctx = st.ctx
-    if ev.exc is not None:
+    if ev.exc is not None or ev.result.size == 0:
         return
     if _big_skip(st, ev.result.size):
         return
@@ -372,7 +486,7 @@ def judge_slab(st: State, ev):
     """Observed (flag, left, right): right - left = h / |n.a| and 0 in [left, right] iff the
     origin lies between the planes (decided outside a rounding band)."""
     ctx = st.ctx
-    if ev.exc is not None or _big_skip(st, ev.result[1].size):
+    if ev.exc is not None or ev.result[1].size == 0 or _big_skip(st, ev.result[1].size):
         return
     try:
         a, b, h, n = (ev.args[k] for k in 'abhn')
@@ -424,7 +538,7 @@ def judge_infinite_cylinder(st: State, ev):
     roots of A t^2 + 2 B t + C (backward-stable residual) and the flag is the sign of the
     discriminant outside a rounding band."""
     ctx = st.ctx
-    if ev.exc is not None or _big_skip(st, ev.result[1].size):
+    if ev.exc is not None or ev.result[1].size == 0 or _big_skip(st, ev.result[1].size):
         return
     try:
         a, b, r, n = (ev.args[k] for k in 'abrn')
@@ -540,6 +654,8 @@ def judge_quadrature(st: State, c, kind, result, exc, origin, canonical=False):
     if exc is not None:
         if isinstance(exc, NotImplementedError) and kind not in KINDS:
             ctx.count('excluded:unknown_kind')
+            return None
+        if _refused_units(ctx, exc, c, 'quadrature'):
             return None
         ctx.violation('quadrature_raised', f'quadrature raised {type(exc).__name__}: {exc}', case,
                       **keys)
@@ -841,6 +957,8 @@ def judge_props(st: State, c, label):
             ctx.count(f'not_judged:no_attribute_{name}')
             continue
         except Exception as e:  # noqa: BLE001
+            if _refused_units(ctx, e, c, name):
+                continue
             ctx.violation('state_attribute_raised', f'Cylinder.{name} raised {type(e).__name__}: {e}',
                           case, attribute=name)
             continue
@@ -886,6 +1004,8 @@ def judge_map(st: State, ev):
         case['case'] = st.case_descr
     keys = dict(g.keys)
     if ev.exc is not None:
+        if _refused_units(ctx, ev.exc, c, 'compute_transmission_map'):
+            return
         ctx.violation('transmission_raised',
                       f'compute_transmission_map raised {type(ev.exc).__name__}: {ev.exc}', case,
                       **keys)
@@ -1695,6 +1815,288 @@ def material_state_case(rng, st, mods, i):
     st.case_descr = None
 
 
+# ------------------------------------------------------- operand-layout workload ---
+# every relation the dims of (start_point, direction) can have: the result is the table over the
+# broadcast by label, one geometric path length per (start, direction) pair
+LAYOUTS = (
+    'both scalar', 'start array, direction scalar', 'start scalar, direction array',
+    'paired over one dim', 'paired over one dim, length 1',
+    'outer product, equal lengths', 'outer product, more starts', 'outer product, more directions',
+    'outer product with a length-1 dim',
+    '2-d start, 1-d direction over its first dim', '2-d start, 1-d direction over its second dim',
+    '2-d start, 1-d direction over a third dim',
+    '1-d start over its first dim, 2-d direction', '1-d start over its second dim, 2-d direction',
+    '1-d start over a third dim, 2-d direction',
+    '2-d paired, same dim order', '2-d paired, opposite dim order (square)',
+    '2-d paired, opposite dim order (non-square)',
+    'start is a transposed view', 'direction is a transposed view',
+    '2-d x 2-d sharing one dim', '2-d x 2-d over four dims',
+    'operands are strided slices', 'operands are slices of a 2-d array along different dims',
+    'empty operands', 'empty outer product',
+    'conflicting extents of a shared dim',
+)
+DIM_NAMES = (('ray', 'pix'), ('start', 'direction'), ('y', 'x'), ('quad', 'det'), ('b', 'a'),
+             ('row', 'col'))
+
+
+def layout_case(rng, st, Cylinder, i):
+    """One solid, one pool of rays in the forced classes; beam_intersection called once per
+    operand layout.  The monitor judges every entry of every table against the oracle for ITS
+    (start, direction) pair and the dims of the table against the broadcast of the operands."""
+    ctx = st.ctx
+    s = gen_solid(rng, ctx, i, same_unit=True)
+    c = make_cylinder(Cylinder, s)
+    U = s['U']
+    P, N, _ = gen_rays(rng, s, 48, ctx)
+    # half of the start points inside the solid, so that most pairs of a table have a path > 0
+    fr = [np.asarray(e, dtype=np.float64) for e in cyl.frame(s['axis'])]
+    for k in range(0, len(P), 2):
+        ph = rng.uniform(0, 2 * np.pi)
+        P[k] = (s['base'] + s['r'] * np.sqrt(rng.random()) * 0.999 * (np.cos(ph) * fr[0] + np.sin(ph) * fr[1])
+                + s['h'] * rng.uniform(0.001, 0.999) * s['axis'])
+    d1, d2 = DIM_NAMES[i % len(DIM_NAMES)]
+    if (i // len(DIM_NAMES)) % 2:
+        d1, d2 = d2, d1
+    d3, d4 = 'k', 'm'
+    na, nb = (3, 5) if i % 2 else (6, 4)          # extents of d1, d2
+    nc = 2
+    pos = [0]
+
+    def take(n):
+        """The next n rays of the pool (cyclic)."""
+        idx = (pos[0] + np.arange(n)) % len(P)
+        pos[0] += n
+        return idx
+
+    def S(dims, shape):
+        idx = take(int(np.prod(shape, dtype=int)))
+        return sc.vectors(dims=list(dims), values=P[idx].reshape(*shape, 3), unit=U)
+
+    def D(dims, shape):
+        idx = take(int(np.prod(shape, dtype=int)))
+        return sc.vectors(dims=list(dims), values=N[idx].reshape(*shape, 3))
+
+    def build(name):
+        if name == 'both scalar':
+            k = int(take(1)[0])
+            return sc.vector(P[k], unit=U), sc.vector(N[(k + 1) % len(N)])
+        if name == 'start array, direction scalar':
+            return S([d1], [na]), sc.vector(N[int(take(1)[0])])
+        if name == 'start scalar, direction array':
+            return sc.vector(P[int(take(1)[0]) // 2 * 2], unit=U), D([d2], [nb])
+        if name == 'paired over one dim':
+            return S([d1], [na + nb]), D([d1], [na + nb])
+        if name == 'paired over one dim, length 1':
+            return S([d1], [1]), D([d1], [1])
+        if name == 'outer product, equal lengths':
+            return S([d1], [nb]), D([d2], [nb])
+        if name == 'outer product, more starts':
+            return S([d1], [max(na, nb) + 2]), D([d2], [min(na, nb)])
+        if name == 'outer product, more directions':
+            return S([d1], [min(na, nb)]), D([d2], [max(na, nb) + 2])
+        if name == 'outer product with a length-1 dim':
+            return (S([d1], [1]), D([d2], [nb])) if i % 2 else (S([d1], [na]), D([d2], [1]))
+        if name == '2-d start, 1-d direction over its first dim':
+            return S([d1, d2], [na, nb]), D([d1], [na])
+        if name == '2-d start, 1-d direction over its second dim':
+            return S([d1, d2], [na, nb]), D([d2], [nb])
+        if name == '2-d start, 1-d direction over a third dim':
+            return S([d1, d2], [na, nb]), D([d3], [nc])
+        if name == '1-d start over its first dim, 2-d direction':
+            return S([d1], [na]), D([d1, d2], [na, nb])
+        if name == '1-d start over its second dim, 2-d direction':
+            return S([d2], [nb]), D([d1, d2], [na, nb])
+        if name == '1-d start over a third dim, 2-d direction':
+            return S([d3], [nc]), D([d1, d2], [na, nb])
+        if name == '2-d paired, same dim order':
+            return S([d1, d2], [na, nb]), D([d1, d2], [na, nb])
+        if name == '2-d paired, opposite dim order (square)':
+            return S([d1, d2], [nb, nb]), D([d2, d1], [nb, nb])
+        if name == '2-d paired, opposite dim order (non-square)':
+            return S([d1, d2], [na, nb]), D([d2, d1], [nb, na])
+        if name == 'start is a transposed view':
+            return S([d2, d1], [nb, na]).transpose([d1, d2]), D([d1, d2], [na, nb])
+        if name == 'direction is a transposed view':
+            return S([d1, d2], [na, nb]), D([d2, d1], [nb, na]).transpose([d1, d2])
+        if name == '2-d x 2-d sharing one dim':
+            return S([d1, d2], [na, nb]), D([d2, d3], [nb, nc])
+        if name == '2-d x 2-d over four dims':
+            return S([d1, d2], [2, 3]), D([d3, d4], [nc, 3])
+        if name == 'operands are strided slices':
+            return S([d1], [2 * na])[d1, ::2], D([d1], [2 * na])[d1, 1::2]
+        if name == 'operands are slices of a 2-d array along different dims':
+            return S([d1, d2], [na, nb])[d2, nb // 2], D([d1, d2], [na, nb])[d1, na // 2]
+        if name == 'empty operands':
+            return S([d1], [0]), D([d1], [0])
+        if name == 'empty outer product':
+            return (S([d1], [0]), D([d2], [nb])) if i % 2 else (S([d1], [na]), D([d2], [0]))
+        if name == 'conflicting extents of a shared dim':
+            return S([d1], [na]), D([d1], [na + 1])
+        raise KeyError(name)
+
+    for name in LAYOUTS:
+        st.case_descr = {'kind': 'operand layout', 'layout': name, 'axis_class': s['axis_cls']}
+        try:
+            sp, dr = build(name)
+        except Exception:  # noqa: BLE001
+            ctx.oracle_error(f'C18 layout operands: {name}')
+            continue
+        st.layout, st.ray_classes = name, None
+        try:
+            c.beam_intersection(sp, dr)
+        except Exception:  # noqa: BLE001  judged by the monitor through PY_UNWIND
+            pass
+        st.layout = None
+        ctx.hit(f'operands: {name}')
+        ctx.case(('layout', name, U, s['axis_cls']))
+    st.case_descr = None
+    return s
+
+
+def detector_layout_case(rng, st, mods, i):
+    """The detector operand of compute_transmission_map in every layout: a flat list, a 2-d
+    array, its transposed view, a strided slice, one pixel as a length-1 array and as a 0-d
+    vector.  Every map is judged by the map monitor (recomputed from the observed nodes); the maps
+    are also compared pixel by pixel with the flat list."""
+    ctx = st.ctx
+    Cylinder, Material, ScatteringParams, ctm = mods
+    s = gen_solid(rng, ctx, int(rng.integers(0, 10 ** 6)) + 2 * len(AXIS_CLASSES), same_unit=True)
+    s['h'] = float(s['r'] * 10.0 ** rng.uniform(-1, 1))
+    c = make_cylinder(Cylinder, s)
+    U = s['U']
+    size_m = (s['r'] + s['h']) * float(si.factor(sc.Unit(U)))
+    lam = sc.array(dims=['wavelength'], values=np.sort(10.0 ** rng.uniform(-1, 1.3, size=2)), unit='angstrom')
+    sp = ScatteringParams('Fake', absorption_cross_section=sc.scalar(4.0, unit='barn'),
+                          total_scattering_cross_section=sc.scalar(6.0, unit='barn'))
+    tau = float(rng.uniform(0.3, 2.0))
+    mat = Material(sp, sc.scalar(tau / (1.6e-27 * size_m) * 1e-30, unit='1/angstrom^3'))
+    beam = _sphere(rng)
+    kind = KINDS[i % 2]
+    rows, cols = (2, 3) if i % 2 else (3, 2)
+    n = rows * cols
+    centre = s['base'] + s['axis'] * s['h'] / 2
+    dirs = np.array([_sphere(rng) for _ in range(n)])
+    Dv = centre + dirs * ((s['r'] + s['h']) * 10.0 ** rng.uniform(0.5, 3, size=n))[:, None]
+    flat = sc.vectors(dims=['det'], values=Dv, unit=U)
+    grid = sc.vectors(dims=['row', 'col'], values=Dv.reshape(rows, cols, 3), unit=U)
+    k0 = int(rng.integers(0, n))
+    layouts = (
+        ('flat list', flat, np.arange(n)),
+        ('2-d array', grid, np.arange(n)),
+        ('transposed view of a 2-d array', grid.transpose(['col', 'row']),
+         np.arange(n).reshape(rows, cols).T.ravel()),
+        ('strided slice', flat['det', ::2], np.arange(n)[::2]),
+        ('one pixel, length-1 array', flat['det', k0:k0 + 1], np.array([k0])),
+        ('one pixel, 0-d vector', flat['det', k0], np.array([k0])),
+    )
+    ref = None
+    for name, det, idx in layouts:
+        st.case_descr = {'kind': 'detector layout', 'layout': name, 'quadrature': kind,
+                         'axis_class': s['axis_cls']}
+        st.maps.clear()
+        try:
+            ctm(c, mat, beam_direction=sc.vector(beam), wavelength=lam, detector_position=det,
+                quadrature_kind=kind)
+        except Exception:  # noqa: BLE001  judged by the map monitor
+            pass
+        ctx.hit(f'detectors: {name}')
+        ctx.case(('detector layout', name, kind, U))
+        m = st.maps[-1] if st.maps else None
+        if m is None or m['sub'] is not None:
+            ctx.count('detector_layout:not_compared')
+            continue
+        if ref is None:
+            ref = m['T']
+            continue
+        T = m['T']
+        d = float(np.max(np.abs(T - ref[idx]))) if T.shape == ref[idx].shape else float('inf')
+        ctx.event('transmission.detector_layout')
+        ctx.dev('detector layouts: same pixel, |T - T(flat list)|', d)
+        if not d <= 1e-12:
+            ctx.violation('transmission_detector_layout',
+                          f'{name}: the same pixels and wavelengths differ from the flat list by {d:.3g}',
+                          {'monitor': 'detector layouts', 'case': st.case_descr,
+                           'cylinder': m['geom'].descr(), 'T': T.ravel()[:6].tolist(),
+                           'T_flat_list': ref[idx].ravel()[:6].tolist()}, layout=name)
+    st.maps.clear()
+    st.case_descr = None
+    return s
+
+
+# ---------------------------------------------------------- mixed-unit workload ---
+def units_case(rng, st, mods, i):
+    """The same solid described with radius, height, base (and the start points) in every
+    combination of the length units; every method called on every description.  What the code
+    answers is judged in the unit of the base point against the fields as given; a UnitError for
+    a mixture is a refusal (counted per method)."""
+    ctx = st.ctx
+    Cylinder, Material, ScatteringParams, ctm = mods
+    s = gen_solid(rng, ctx, int(rng.integers(0, 10 ** 6)) + 2 * len(AXIS_CLASSES), same_unit=True)
+    s['h'] = float(s['r'] * 10.0 ** rng.uniform(-1, 1))
+    U = LEN_UNITS[i % 3]
+    s['U'] = s['rU'] = U
+    sp_ = ScatteringParams('Fake', absorption_cross_section=sc.scalar(4.0, unit='barn'),
+                           total_scattering_cross_section=sc.scalar(6.0, unit='barn'))
+    size_m = (s['r'] + s['h']) * float(si.factor(sc.Unit(U)))
+    mat = Material(sp_, sc.scalar(float(rng.uniform(0.3, 2.0)) / (1.6e-27 * size_m) * 1e-30,
+                                  unit='1/angstrom^3'))
+    lam = sc.array(dims=['wavelength'], values=[0.9, 4.2], unit='angstrom')
+    P, N, classes = gen_rays(rng, s, 14, ctx)
+    centre = s['base'] + s['axis'] * s['h'] / 2
+    Dv = centre + np.array([_sphere(rng) for _ in range(2)]) * (s['r'] + s['h']) * 30.0
+    beam = _sphere(rng)
+    step = 0
+    for rU in LEN_UNITS:
+        for hU in LEN_UNITS:
+            for sU in LEN_UNITS:
+                rel = (('radius ' + ('as base' if rU == U else 'other')),
+                       ('height ' + ('as base' if hU == U else 'other' if hU != rU else 'as radius')),
+                       ('start ' + ('as base' if sU == U else 'other')))
+                label = ', '.join(rel)
+                c = Cylinder(sc.vector(s['axis']), sc.vector(s['base'], unit=U),
+                             sc.scalar(s['r'] * float(_ratio(sc.Unit(U), sc.Unit(rU))), unit=rU),
+                             sc.scalar(s['h'] * float(_ratio(sc.Unit(U), sc.Unit(hU))), unit=hU))
+                st.case_descr = {'kind': 'length units', 'units': {'base': U, 'radius': rU, 'height': hU,
+                                                                  'start_point / detectors': sU}}
+                f = float(_ratio(sc.Unit(U), sc.Unit(sU)))
+                st.ray_classes = classes
+                try:
+                    c.beam_intersection(sc.vectors(dims=['ray'], values=P * f, unit=sU),
+                                        sc.vectors(dims=['ray'], values=N))
+                except Exception:  # noqa: BLE001  judged by the monitor
+                    pass
+                st.ray_classes = None
+                if sU == U or step % 3 == 0:
+                    kind = KINDS[step % 3]
+                    try:
+                        c.quadrature(kind)
+                    except Exception:  # noqa: BLE001
+                        pass
+                    judge_props(st, c, 'units ' + label)
+                    st.maps.clear()
+                    try:
+                        ctm(c, mat, beam_direction=sc.vector(beam), wavelength=lam,
+                            detector_position=sc.vectors(dims=['det'], values=Dv * f, unit=sU),
+                            quadrature_kind='cheap')
+                    except Exception:  # noqa: BLE001
+                        pass
+                    st.maps.clear()
+                step += 1
+                ctx.hit('length units: ' + label)
+                ctx.event('units.exercised')
+                ctx.case(('units', U, rU, hU, sU))
+    st.case_descr = None
+    return s
+
+
+UNIT_CLASSES = tuple(
+    'length units: ' + ', '.join((r, h, s_))
+    for r in ('radius as base', 'radius other')
+    for h in ('height as base', 'height other', 'height as radius')
+    for s_ in ('start as base', 'start other')
+    if not (r == 'radius as base' and h == 'height as radius'))
+
+
 # ------------------------------------------------------------------ heavy case ---
 def heavy_case(rng, st, mods, tier):
     """The size threshold of _integrate_transmission_fraction crossed from both sides with
@@ -1820,11 +2222,12 @@ def heavy_case(rng, st, mods, tier):
 def plan(tier, seed):
     # the one heavy case of a run has the last shard for itself (quick) / rides on it (thorough)
     if tier == 'quick':
-        return [{'rays': 60, 'quads': 48, 'trans': 8, 'state': 5, 'mat_state': 4, 'heavy': False}
+        return [{'rays': 60, 'quads': 48, 'trans': 8, 'state': 5, 'mat_state': 4, 'layouts': 3,
+                 'det_layouts': 1, 'units': 1, 'heavy': False}
                 for _ in range(15)] + [
             {'rays': 0, 'quads': 0, 'trans': 0, 'state': 0, 'mat_state': 0, 'heavy': True}]
     return [{'rays': 3000, 'quads': 2250, 'trans': 200, 'state': 150, 'mat_state': 50,
-             'heavy': i == 15} for i in range(16)]
+             'layouts': 150, 'det_layouts': 30, 'units': 9, 'heavy': i == 15} for i in range(16)]
 
 
 def requirements(tier):
@@ -1839,6 +2242,9 @@ def requirements(tier):
         'integrate.normalisation': 100,
         'state.exercised': 300, 'state.volume': 300, 'state.center': 300,
         'transmission.loop_vs_vectorised': 4,
+        'beam_intersection.dims.direct': 400, 'beam_intersection.dims.in_situ': 200,
+        'beam_intersection.layout': 40 * (len(LAYOUTS) - 3), 'transmission.detector_layout': 50,
+        'units.exercised': 300,
     }
     forced = list(FORCED_AXIS.values()) + [
         'axis z<0', 'axis in the xy-plane at a generic angle',
@@ -1854,10 +2260,17 @@ def requirements(tier):
         'vectorised branch observed (flat list just below the threshold)',
         'vectorised branch observed (small subset)']
     forced += [f'live Cylinder: {f} reassigned' for f in CYL_FIELDS]
+    forced += [f'operands: {name}' for name in LAYOUTS]
+    forced += ['detectors: ' + name for name in (
+        'flat list', '2-d array', 'transposed view of a 2-d array', 'strided slice',
+        'one pixel, length-1 array', 'one pixel, 0-d vector')]
+    forced += list(UNIT_CLASSES)
     if tier == 'thorough':
         forced.append('per-detector loop branch observed (2-d array with rows above the threshold)')
         forced.append('per-detector loop branch observed (2-d array of many thin rows)')
-    return {'events': ev, 'forced': forced, 'counters': {'rays_decided': 10000}}
+    return {'events': ev, 'forced': forced,
+            'counters': {'rays_decided': 10000, 'layout:entries_decided_with_nonzero_path': 2000,
+                         'refused:operand_extents_conflict': 40}}
 
 
 def _mp_selftest(ctx):
@@ -1985,6 +2398,20 @@ def run(shard, ctx):
                 ctx.sample({'case': 'state', 'final_solid': _solid_descr(s)})
         for i in range(shard.get('mat_state', 0)):
             material_state_case(rng, st, mods, i)
+        # the later additions draw from a stream of their own (the cases above stay what they were)
+        rng2 = np.random.Generator(np.random.PCG64([shard['seed'], shard['index'], 1818]))
+        st.origin = 'direct'
+        for i in range(shard.get('layouts', 0)):
+            before = ctx.n_violations
+            s = layout_case(rng2, st, Cylinder, i + 3 * shard['index'])
+            if i < 1 or ctx.n_violations > before:
+                ctx.sample({'case': 'operand layouts', 'solid': _solid_descr(s)})
+        st.origin = 'transmission'
+        for i in range(shard.get('det_layouts', 0)):
+            detector_layout_case(rng2, st, mods, i + shard['index'])
+        st.origin = 'state'
+        for i in range(shard.get('units', 0)):
+            units_case(rng2, st, mods, i + shard['index'])
         if shard.get('heavy'):
             st.origin = 'transmission'
             heavy_case(rng, st, mods, shard.get('tier'))
